@@ -19,6 +19,7 @@ import PgProofs.C05Dna
 import PgProofs.C05Opts
 import PgProofs.C05Auto
 import PgProofs.C05SpecRT
+import PgProofs.C05Geno
 namespace Pg.C05
 
 /-! ## T-SIG: value specs can be rebuilt from what `to_json` emits -/
@@ -355,6 +356,24 @@ example : VSOK (.dict (some (.mk
     none true none)) false ⟨false, none, false⟩) = true := by
   simp [VSOK, VSOKL, schemaOK, fieldsOK, fieldOK, flagsOK, optPlainOK, plainOK, plainOKL, isNoneLeaf,
     startsWithTupleMarker]
+
+/-! ## DNASpec (`pg.geno.Space / Choices / Float / CustomDecisionPoint`) -/
+
+/-- ROUND TRIP for search-space specifications: for every DNASpec of the shared geno model
+(`PgModel/Geno/Spec.lean`: nested conditional spaces, multi-choices, floats, custom points, names,
+locations, literal values — any depth) the object tree `pg.to_json` walks conforms to the class
+schemas of geno and holds no reserved shape, hence loads back unchanged, in the object form … -/
+theorem C05_dnaspec_roundtrip (gt : GenoText) (hgt : gt.OK) (g : Geno.Spec) (ap : Bool) :
+    fromJson genoEnv ap (toJson genoEnv (specTree gt g)) = .ok (specTree gt g) := by
+  obtain ⟨h1, h2, h3⟩ := spec_good gt hgt g
+  exact C05_roundtrip genoEnv genoEnv_wf ap _ h1 h2 (.inr h3)
+
+/-- … and under every combination of `hide_frozen` / `hide_default_values` (the defaults of
+`hints`, `name`, `literal_values`, `index`, … are then left out and restored by the schema). -/
+theorem C05_dnaspec_roundtrip_opts (o : JOpts) (gt : GenoText) (hgt : gt.OK) (g : Geno.Spec) (ap : Bool) :
+    fromJson genoEnv ap (toJsonO o genoEnv (specTree gt g)) = .ok (specTree gt g) := by
+  obtain ⟨h1, h2, h3⟩ := spec_good gt hgt g
+  exact C05_roundtrip_opts o genoEnv genoEnv_wf ap _ h1 h2 (.inr h3)
 
 /-! ## `pg.DNA` (compact JSON form, root metadata) -/
 
